@@ -37,6 +37,24 @@ def gen(rng):
                     tag += 1
                     ops.append(f"pub {cur} t/a q=1 pid={rng.choice([1, 2, 3, 4])} tag=m{tag}")
             ops.append(f"resume {cur}")
+        elif r < 0.96:
+            # a burst of QoS 2 publishes and the end of the connection reach the broker at once; the publisher resumes its
+            # session and retransmits them (DUP=1): every message exactly once, whatever the broker had already handled when
+            # it noticed the end (seed C04-4)
+            k = rng.choice([3, 9, 12, 20])
+            base = 100 + 30 * life
+            burst = []
+            for i in range(k):
+                tag += 1
+                burst.append((base + i, f"m{tag}"))
+            ops.append(f"close {cur} burst=" + ",".join(f"{p}:{t}" for p, t in burst) + " q=2 topic=t/a")
+            ops.append("ack s pubrec all"); ops.append("ack s pubcomp all")
+            cur = connect(0)
+            for p, t in burst:
+                if rng.random() < 0.8:
+                    ops.append(f"pub {cur} t/a q=2 pid={p} d=1 tag={t}")
+                    if rng.random() < 0.7:
+                        ops.append(f"rel {cur} {p}")
         else:
             ops.append(rng.choice([f"close {cur}", f"disc {cur}"]))
             cur = connect(rng.choice([0, 0, 0, 1]))
@@ -90,6 +108,16 @@ def predicate(ops, out):
                     return f"`{op}`: expected exactly one PUBACK({pid}), got {h}"
                 if got != [tag]:
                     return f"`{op}`: QoS 1 PUBLISH must be forwarded once, subscriber got {got}"
+        elif f[0] == "close" and "burst" in kv:
+            # the broker may stop taking packets in once it has found the connection dead (nothing of what it then ignores has
+            # been acknowledged, the publisher retransmits): what it did handle is a PREFIX of the burst, forwarded once each in
+            # order and remembered; the rest counts as never received
+            items = [it.split(":") for it in kv["burst"].split(",")]
+            tags = [t for _, t in items]
+            if got != tags[:len(got)]:
+                return f"`{op}`: the subscriber got {got}, which is not a prefix of the burst {tags}"
+            for pid, _ in items[:len(got)]:
+                open_ids.add(pid)
         elif f[0] == "rel":
             h = conns.get(f[1], ([], []))[0]
             if f[1] == paused:
@@ -117,7 +145,19 @@ def nontrivial(ops, out):
             released.add(f[2])
     return dup and reuse
 
+def hint(ops, impl_out):
+    """shared-subscription hints + for a burst-close the number of publishes the broker had handled (read off the subscriber's part)"""
+    ops = wire.shared_hints(ops, impl_out)
+    res = []
+    for op, line in zip(ops, impl_out):
+        if op.startswith("close ") and " burst=" in op:
+            _, conns = wire.parse_line(line)
+            got = [g for g in (wire.pub_fields(x) for x in conns.get("s", ([], []))[1]) if g]
+            op += f" done={len(got)}"
+        res.append(op)
+    return res + list(ops[len(res):])
+
 def stream(tier):
     n = 500 if tier == "quick" else 15000
     return (core.Stream("broker-inbound", "broker", gen, predicate, nontrivial, canon=wire.canon, keep_prefix=1,
-                        hint=wire.shared_hints), n)
+                        hint=hint), n)
